@@ -9,14 +9,17 @@ import (
 	"go/types"
 	"os"
 	"testing"
+
+	"pgregory.net/rapid"
 )
 
 // TestValid: every generated program must be accepted by go/parser and go/types
 // (a rejected program is a generator bug, never a finding).
-func TestValid(t *testing.T) {
+func TestValid(t *testing.T)      { valid(t, Gen(), 1500) }
+func TestValidMarks(t *testing.T) { valid(t, GenOpt(Options{Marks: true, Layout: true}), 300) }
+
+func valid(t *testing.T, g *rapid.Generator[*Program], n int) {
 	imp := importer.ForCompiler(token.NewFileSet(), "source", nil)
-	g := Gen()
-	n := 1500
 	feat := map[string]int{}
 	lines := 0
 	for i := 0; i < n; i++ {
